@@ -44,7 +44,7 @@ def gen(rnd):
         scale = rnd.choice([1.0, 1.0, 0.5, 1000.0])
         nd = 1 if scale == 1000.0 else 2
         cuts = sorted({round(scale * rnd.uniform(0.02, 4.0) * rnd.choice([0.1, 1.0, 1.0]), nd) for _ in range(nlay)})
-        cuts = [v for v in cuts if v > 0]
+        cuts = [v for v in cuts if v > 0] or [round(scale * 1.0, nd)]        # (at least one interface: a model has a bottom)
         if rnd.random() < 0.6:
             # ... and in particular depths for which top + (bottom - top) is not bottom in binary64 (about 2 % of decimal pairs):
             # any bookkeeping that re-derives an interface depth from a thickness lands one ulp beside the interface
@@ -191,6 +191,44 @@ def homogeneous_case(rnd):
     return probs, conv, nrec
 
 
+def layered_forward_case(rnd):
+    """forward() on a layered medium: the travel time it reports for a converged receiver is that of a ray which, traced again at the
+    solved take-off angle, goes down to the receiver line and arrives within the tolerance of the receiver."""
+    import sys
+    import hmclab
+    L = sys.modules["hmclab.Distributions.LayeredRayTracing2D"]
+    nlay = rnd.randint(3, 5)
+    inter = numpy.cumsum([rnd.choice([0.5, 1.0, 1.5]) for _ in range(nlay)])
+    v0 = rnd.choice([1.0, 1.5, 2.0])
+    grow = rnd.choice([1.1, 1.2, 1.35, 1.5])              # velocity increasing with depth: part of the fan is post-critical
+    vel = numpy.array([v0 * grow ** k for k in range(nlay)])
+    X = rnd.choice([2.0, 3.0, 5.0])
+    # receivers spread over the model, one of them a hair above an interface
+    rz = sorted({round(float(z), 6) for z in list(numpy.linspace(0.3, 0.85 * inter[-1], rnd.randint(2, 4))) + [float(inter[rnd.randrange(nlay - 1)]) - 0.01]})
+    rz = numpy.array(rz)
+    obj = hmclab.Distributions.LayeredRayTracing2D(inter, numpy.array([X]), rz)
+    obj.parallel = False
+    numpy.random.seed(rnd.randrange(1 << 30))
+    out = []
+    try:
+        with contextlib.redirect_stdout(io.StringIO()), numpy.errstate(all="ignore"), common.time_limit(40):
+            tts = numpy.asarray(obj.forward(vel.copy()), dtype=float)
+    except common.TimeLimit:
+        return []          # receivers that cannot be reached keep the search busy: not the subject here (see forward-did-not-return)
+    ang = numpy.asarray(obj.solved_angles, dtype=float)
+    for k in range(len(rz)):
+        if math.isnan(ang[k]):
+            continue
+        with contextlib.redirect_stdout(io.StringIO()), numpy.errstate(all="ignore"):
+            res = L._tracerays(inter, vel, numpy.array([0, 0]), X, rz, float(ang[k]), maxnumiterations=inter.size * 3, keep_upgoing=False)
+        ray = numpy.asarray(res[0], dtype=float)
+        if res[1] is None or ray[-1][0] != X or abs(ray[-1][1] - rz[k]) > obj.tolerance + 1e-12 or abs(res[1] - tts[k]) > 1e-9 * max(1.0, abs(tts[k])):
+            out.append(("layered-forward", f"velocities {vel.tolist()}, interfaces {inter.tolist()}, offset {X}: receiver at depth {rz[k]} is reported converged with take-off angle {ang[k]} and "
+                        f"travel time {tts[k]}; the ray traced at that angle ends at {ray[-1].tolist()} with travel time {res[1]} (receiver line x = {X}, tolerance {obj.tolerance})"))
+            break
+    return out
+
+
 def run(tier, seed):
     common.setup_env()
     rnd = random.Random(seed * 7919 + 18)
@@ -226,6 +264,14 @@ def run(tier, seed):
         dist["homogeneous_converged"] += conv
         for key, what in probs:
             violations.append(Violation(key, what, {"homogeneous_case": k}))
+    for k in range(10 if tier == "quick" else 80):
+        dist["layered_forward_cases"] = dist.get("layered_forward_cases", 0) + 1
+        try:
+            for key, what in layered_forward_case(rnd):
+                violations.append(Violation(key, what, {"layered_forward_case": k}))
+        except Exception as e:  # noqa
+            violations.append(Violation("forward-raised", f"LayeredRayTracing2D.forward on a layered medium raised {type(e).__name__}: {e}", {"layered_forward_case": k}))
+            break
     # cases without per-layer output: compare everything but the per-layer list
     header2 = HEADER + "Definition chk (c : c18_case) := c18_check c.\n"
     fl, errs = common.eval_cases("C18a", HEADER, [t for t, _ in coq_layers], "c18_check", shard=100)
